@@ -56,6 +56,7 @@ type Result struct {
 	Trace      []string
 	Stalls     int
 	SelectMult int // selects entered with >=2 ready cases
+	SiteHits   map[int]int // scheduling decisions per site (site = a channel operation, select, go statement of the instrumented sources)
 }
 
 type grant struct {
@@ -180,6 +181,7 @@ func Run(tape *Tape, cfg Config, root func()) Result {
 		s.mu.Unlock()
 	})
 	s.loop()
+	s.res.SiteHits = s.siteHits
 	return s.res
 }
 
